@@ -203,6 +203,96 @@ Lemma parse_literal_S f ts :
   end.
 Proof. reflexivity. Qed.
 
+Lemma parse_let_S f ts :
+  parse_let cfg (S f) ids ts =
+  if is_kw (peek ts) s_let then
+    if negb (typ_is (peek (adv ts)) tIdent) then PErr else
+    if negb (is_op (peek (adv (adv ts))) s_assign) then PErr else
+    match parse_expression cfg f ids (adv (adv (adv ts))) with
+    | POk (exp, u1, ts4) =>
+        if negb (typ_is (peek ts4) tSemicolon && str_eqb (kimg (peek ts4)) s_semi) then PErr else
+        match is_const exp with
+        | Some c =>
+            match parse_let cfg f (id_constant (kimg (peek (adv ts))) c :: ids) (adv ts4) with
+            | POk (inner, u2, ts6) =>
+                POk (inner, u1 ++ escape (id_constant (kimg (peek (adv ts))) c) u2, ts6)
+            | r => r
+            end
+        | None =>
+            match parse_let cfg f (id_var (kimg (peek (adv ts))) :: ids) (adv ts4) with
+            | POk (inner, u2, ts6) =>
+                POk (ALet (kimg (peek (adv ts))) exp inner, u1 ++ escape (id_var (kimg (peek (adv ts)))) u2, ts6)
+            | r => r
+            end
+        end
+    | r => r
+    end
+  else if is_kw (peek ts) s_func then
+    if negb (typ_is (peek (adv ts)) tIdent) then PErr else
+    if negb (typ_is (peek (adv (adv ts))) tOpen) then PErr else
+    match parse_identlist (S (length (adv (adv (adv ts))))) [] (adv (adv (adv ts))) with
+    | POk (names, ts4) =>
+        match parse_let cfg f (SThis (kimg (peek (adv ts))) :: SArgs names :: ids) ts4 with
+        | POk (exp, ub, ts5) =>
+            if negb (typ_is (peek ts5) tSemicolon && str_eqb (kimg (peek ts5)) s_semi) then PErr else
+            match parse_let cfg f (id_var (kimg (peek (adv ts))) :: ids) (adv ts5) with
+            | POk (inner, u2, ts7) =>
+                POk (ALet (kimg (peek (adv ts)))
+                          (AClosure names exp
+                             (outers_of ids names (escape (SThis (kimg (peek (adv ts)))) ub))
+                             (mem_str (kimg (peek (adv ts))) ub) (kimg (peek (adv ts))))
+                          inner,
+                     escape (SArgs names) (escape (SThis (kimg (peek (adv ts)))) ub)
+                       ++ escape (id_var (kimg (peek (adv ts)))) u2, ts7)
+            | r => r
+            end
+        | r => r
+        end
+    | PErr => PErr | PPanic => PPanic | POOF => POOF
+    end
+  else parse_expression cfg f ids ts.
+Proof. reflexivity. Qed.
+
+Lemma parse_switch_S f sv cases u ts :
+  parse_switch cfg (S f) sv cases u ids ts =
+  if typ_is (peek ts) tKeyWord then
+    if str_eqb (kimg (peek ts)) s_case then
+      match parse_expression cfg f ids (adv ts) with
+      | POk (cc, u1, ts2) =>
+          if negb (typ_is (peek ts2) tColon) then PErr else
+          match parse_let cfg f ids (adv ts2) with
+          | POk (res, u2, ts4) => parse_switch cfg f sv (cases ++ [(cc, res)]) (u ++ u1 ++ u2) ids ts4
+          | r => r
+          end
+      | r => r
+      end
+    else if str_eqb (kimg (peek ts)) s_default then
+      match parse_let cfg f ids (adv ts) with
+      | POk (res, u1, ts2) => POk (ASwitch sv cases res, u ++ u1, ts2)
+      | r => r
+      end
+    else PErr
+  else PErr.
+Proof. reflexivity. Qed.
+
+Lemma parse_map_S f m u ts :
+  parse_map cfg (S f) m u ids ts =
+  match ktyp (peek ts) with
+  | tCloseCurly => POk (AMapLit m, u, adv ts)
+  | tIdent =>
+      if mem_str (kimg (peek ts)) (map fst m) then PErr else
+      if negb (typ_is (peek (adv ts)) tColon) then PErr else
+      match parse_let cfg f ids (adv (adv ts)) with
+      | POk (entry, u1, ts3) =>
+          if typ_is (peek ts3) tComma then parse_map cfg f (m ++ [(kimg (peek ts), entry)]) (u ++ u1) ids (adv ts3)
+          else if negb (typ_is (peek ts3) tCloseCurly) then PErr
+          else parse_map cfg f (m ++ [(kimg (peek ts), entry)]) (u ++ u1) ids ts3
+      | r => r
+      end
+  | _ => PErr
+  end.
+Proof. reflexivity. Qed.
+
 (* parseLet on a token that is not the keyword let or func *)
 Lemma parse_let_S_nokw f ts :
   is_kw (peek ts) s_let = false -> is_kw (peek ts) s_func = false ->
